@@ -420,6 +420,7 @@ def rounding(ctx: Ctx, rule: str) -> None:
                   "up to a second early", node=d, instance="rabbitmq expiration rounding")
         # time left = due - now
         d_full = C.inline_locals(owner_of.get(id(d), f), d, calls="all") or d  # `remaining = due - now` may be a local of its own
+        d_full = C.expand_helper_calls(ctx, owner_of.get(id(d), f), d_full)  # `self._now()` = datetime.now() unless a clock was injected
         ok2 = any(isinstance(b, ast.BinOp) and isinstance(b.op, ast.Sub) and any((dotted(c.func) or "").endswith("datetime.now") for c in ast.walk(b.right) if isinstance(c, ast.Call))
                   for b in ast.walk(d_full))
         ctx.check(ok2, rule, f, "rabbitmq expiration = due - now", "time left until due",
